@@ -45,7 +45,7 @@ def gen_case(seed, run, tier):
     maxcoef = rs.choice([1, 2, 3, 4, 6])
     enabled = set(["scale", "add", "sub"])
     for name, p in (("neg", 0.7), ("combo", 0.6), ("eliminate", 0.7), ("as_reactions", 0.4),
-                    ("eq", 0.3), ("cancel", 0.3), ("zero", 0.4), ("selfsub", 0.4), ("set_param", 0.5)):
+                    ("eq", 0.3), ("cancel", 0.3), ("zero", 0.4), ("selfsub", 0.4), ("set_param", 0.5), ("peek", 0.5)):
         if rs.random() < p:
             enabled.add(name)
     nops = rs.randint(3, 45 if deep else 25)
@@ -79,7 +79,7 @@ def gen_case(seed, run, tier):
     ops = []
     kinds = sorted(enabled)
     weights = {"scale": 5, "add": 5, "sub": 5, "neg": 2, "combo": 3, "eliminate": 3, "as_reactions": 1,
-               "eq": 1, "cancel": 1, "zero": 1, "selfsub": 1, "set_param": 2}
+               "eq": 1, "cancel": 1, "zero": 1, "selfsub": 1, "set_param": 2, "peek": 2}
     spare = [q for q in PRIMES + [41, 43, 47, 53, 59, 61, 67, 71] if q not in primes]
     for oid in range(nops):
         kind = rw.choices(kinds, [weights[k] for k in kinds])[0]
@@ -123,6 +123,8 @@ def gen_case(seed, run, tier):
             res = model.add(model.scale(vecs[a], -l // va), model.scale(vecs[b], l // vb))
         elif kind == "as_reactions":
             op.update(which=rw.choice(["kf", "kb"]), val=rw.choice([1, 3, 10, 7]), units=(const_kind == "fraction" and rw.random() < 0.4))
+        elif kind == "peek":
+            op.update(key=rw.choice(species + ["Zz"]), side=rw.choice(["reac", "prod"]))
         elif kind == "set_param":
             if not spare:
                 continue
@@ -409,6 +411,20 @@ def execute(case):
                 pool[rid] = [out, res_vec, _snap(out), res_k]
             hist.append(rec)
             continue
+        if kind == "peek":
+            # the user reads a coefficient by subscript; reading must not change the object
+            try:
+                val = getattr(A[0], op["side"])[op["key"]]
+                rec["outcome"] = "ok:%s" % int(val)
+            except KeyError:
+                rec["outcome"] = "raise:KeyError"
+            except Exception as ex:
+                rec["outcome"] = "raise:" + core.exc_tag(ex)
+            check_untouched(idx, kind)
+            bump("op:peek")
+            states.add(("peek", rec["outcome"].split(":")[0]))
+            hist.append(rec)
+            continue
         if kind == "set_param":
             # the user assigns a new constant to a live object (objects are mutable): later expressions must use it,
             # earlier results must keep theirs
@@ -590,7 +606,7 @@ def shrink(case, still_fails):
 
 
 def is_trivial_state(s):
-    return s[1] in ("refused", "raise") or s[0] in ("eq", "cancel")
+    return s[1] in ("refused", "raise") or s[0] in ("eq", "cancel", "peek")
 
 
 def describe():
